@@ -202,6 +202,26 @@ static void build(vf::Plan &plan, const vf::Opts &o)
                        return show_cps(cps);
                    });
     }
+    // every length across the in-object limits of all buffer types (16 units of 1 or 2 bytes, 12 units of 4 bytes) and a few
+    // doublings beyond: n copies of a 1-, 2-, 3- or 4-byte scalar, optionally with a different last scalar, all routes
+    {
+        const unsigned NMAXLEN = big ? 300 : 70;
+        static const uint32_t FILLCP[4] = {0x61, 0xE9, 0x20AC, 0x1F600};
+        plan.stage(strf("length sweep: 0..%u copies of a 1-/2-/3-/4-byte scalar (+ a different last one), all routes, 3 source encodings", NMAXLEN),
+                   (uint64_t)(NMAXLEN + 1) * 4 * 2,
+                   [](uint64_t i, Ctx &c) {
+                       unsigned tail = (unsigned)vf::take(i, 2), k = (unsigned)vf::take(i, 4);
+                       U32V cps((size_t)i, FILLCP[k]);
+                       if (tail) cps.push_back(FILLCP[(k + 1) % 4]);
+                       RunOpts all;
+                       run_all_encodings(c, cps, all);
+                       c.nontrivial();
+                   },
+                   [](uint64_t i) {
+                       unsigned tail = (unsigned)vf::take(i, 2), k = (unsigned)vf::take(i, 4);
+                       return strf("%llu x U+%04X%s", (unsigned long long)i, FILLCP[k], tail ? strf(" + U+%04X", FILLCP[(k + 1) % 4]).c_str() : "");
+                   });
+    }
     plan.stage("latin1: all 256^2 byte pairs", 65536,
                [](uint64_t i, Ctx &c) {
                    U32V b = {(uint32_t)(i / 256), (uint32_t)(i % 256)};
